@@ -113,7 +113,7 @@ def _design_prop(prop, tier, seed, filt, rule, strategies=(SAT, RND), literal=No
         if literal and not common.replay_cases():
             law_literal_check(prop, literal, cov, out)
         rng = random.Random(seed)
-        cases = [c for c in gen_blocks.systematic_blocks() if filt(c)]
+        cases = [c for c in gen_blocks.systematic_blocks() + gen_blocks.weighted_blocks() if filt(c)]
         n = 40 if tier == "quick" else 600
         cases += [c for c in gen_blocks.random_blocks(rng, n) if filt(c)]
         cases += common.witness_cases(prop)
